@@ -21,7 +21,7 @@ pub mod sim_c09;
 pub mod sim_disc;
 pub mod lease;
 pub mod qosx;
-// pub mod wiregen;
+pub mod wiregen;
 // pub mod plcdr;
 // pub mod hostile;
 pub mod sched_bodies;
